@@ -1,7 +1,6 @@
 package c13
 
 import (
-	"runtime"
 	"strings"
 	"sync"
 	"sync/atomic"
@@ -154,17 +153,32 @@ func (c *ctl) write(db, op string, key []byte, n int, apply func()) {
 // It only orders the first SaveBlock after arming; afterwards it is inert.
 type gate struct {
 	mu       sync.Mutex
+	cond     *sync.Cond
 	order    string // permutation of "ABC"
 	finished map[byte]bool
+	released bool
 	giveups  int64
+	timer    *time.Timer
 }
 
-func newGate(order string) *gate { return &gate{order: order, finished: map[byte]bool{}} }
+func newGate(order string) *gate {
+	g := &gate{order: order, finished: map[byte]bool{}}
+	g.cond = sync.NewCond(&g.mu)
+	// liveness fallback only (a writer the gate waits for never shows up, e.g. on a modified
+	// tree): it releases the forced order, it never decides anything.
+	g.timer = time.AfterFunc(10*time.Second, func() {
+		g.mu.Lock()
+		g.released = true
+		g.mu.Unlock()
+		g.cond.Broadcast()
+	})
+	return g
+}
 
-func (g *gate) ready(cls string) bool {
-	g.mu.Lock()
-	defer g.mu.Unlock()
-	if g.finished[cls[0]] {
+func (g *gate) stop() { g.timer.Stop() }
+
+func (g *gate) readyLocked(cls string) bool {
+	if g.released || g.finished[cls[0]] {
 		return true
 	}
 	for i := 0; i < len(g.order) && g.order[i] != cls[0]; i++ {
@@ -176,18 +190,14 @@ func (g *gate) ready(cls string) bool {
 }
 
 func (g *gate) wait(cls string) {
-	for spins := 0; !g.ready(cls); spins++ {
-		if spins > 200000 {
-			// liveness fallback only (a writer the gate waits for never showed up, e.g. on a
-			// modified tree): release the order, never decide anything.
-			atomic.AddInt64(&g.giveups, 1)
-			return
-		}
-		runtime.Gosched()
-		if spins%64 == 63 {
-			time.Sleep(20 * time.Microsecond)
-		}
+	g.mu.Lock()
+	for !g.readyLocked(cls) {
+		g.cond.Wait()
 	}
+	if g.released && !g.finished[cls[0]] {
+		g.giveups++
+	}
+	g.mu.Unlock()
 }
 
 func (g *gate) done(cls, op string, key []byte) {
@@ -201,6 +211,7 @@ func (g *gate) done(cls, op string, key []byte) {
 		}
 	}
 	g.mu.Unlock()
+	g.cond.Broadcast()
 }
 
 // ---------------------------------------------------------------- DB
